@@ -71,6 +71,30 @@ def _gen_overlap_1d(n, ch):
                 yield {"source": src, "expr": f"da.map_overlap(__import__('bottleneck').{fn}, x, depth={{0: ({w - 1}, 0)}}, boundary='none', window={w}{mcs}, axis=0, dtype=x.dtype)", "nexpr": f"__import__('bottleneck').{fn}(a, window={w}{mcs}, axis=0)", "label": f"bottleneck-{fn}", "exact": False}
 
 
+def _gen_sliced_1d(n, ch):
+    """Every contiguous slice [i:j] (plus a few stepped ones) applied on top of
+    each window/scan op: the slice is pushed through the op by the optimizer
+    and must still see the halo / carry of the FULL array."""
+    src = E.src((n,), (ch,))
+    sls = [f"[{i}:{j}]" for i in range(n) for j in range(i + 1, n + 1) if not (i == 0 and j == n)] + ["[::-1]", "[::2]", "[1::2]", "[-2::-1]"]
+    prods = []
+    for d in (1, 2):
+        for b in BOUNDARIES:
+            if d <= n:
+                prods.append((f"da.map_overlap(uf.ov_sumd, x, depth={d}, boundary={b}, dtype=x.dtype, d={d})", f"uf.np_ov_sumd(a, {d}, {b})", f"map_overlap-{b.strip(chr(39))}"))
+    for w in (2, 3):
+        if w <= n:
+            for red in ("sum", "max"):
+                prods.append((f"da.sliding_window_view(x, {w}, axis=0).{red}(axis=-1)", f"uf.np_swv(a, {w}, 0).{red}(axis=-1)", f"swv-{red}"))
+            prods.append((f"da.map_overlap(__import__('bottleneck').move_sum, x, depth={{0: ({w - 1}, 0)}}, boundary='none', window={w}, min_count=1, axis=0, dtype=x.dtype)", f"__import__('bottleneck').move_sum(a, window={w}, min_count=1, axis=0)", "bottleneck-move_sum"))
+    for method in ("sequential", "blelloch"):
+        prods.append((f"da.cumsum(x, axis=0, method='{method}')", "np.cumsum(a, axis=0)", f"cumsum-{method}"))
+    prods.append(("da.diff(x, axis=0)", "np.diff(a, axis=0)", "diff"))
+    for e, ne, lab in prods:
+        for sl in sls:
+            yield {"source": src, "expr": f"({e}){sl}", "nexpr": f"({ne}){sl}", "label": lab + "+slice", "exact": False, "may_refuse": ["ValueError"], "np_raises_must_raise": False}
+
+
 def _gen_2d(shape, chunks):
     src = E.src(shape, chunks)
     for ax in (0, 1, -1):
@@ -110,6 +134,8 @@ def gen_cases(shard):
         yield from _gen_swv_1d(n, ch)
         yield from _gen_scan_1d(n, ch)
         yield from _gen_overlap_1d(n, ch)
+        if n >= 5:
+            yield from _gen_sliced_1d(n, ch)
     else:
         yield from _gen_2d(tuple(shard["shape"]), tuple(tuple(c) for c in shard["chunks"]))
 
@@ -134,7 +160,7 @@ def plan_shards(tier):
 
 _m = CC.make(
     "C19", gen_cases, plan_shards,
-    rule="1-D: every n, every chunking, every window 1..n: sliding_window_view alone and under sum/mean/max/min/std/var/prod/any/all and the nan-reducers; cumsum/cumprod/nancumsum/nancumprod x {sequential, blelloch}; diff n=1..3, prepend/append, gradient; map_overlap with depth 0/1/2 under every boundary kind (none, reflect, periodic, nearest, constants) against NumPy padding semantics, overlap+trim identity, bottleneck move_sum/mean/min/max with every window/min_count through map_overlap (native moving-window rewrite). 2-D: both axes of small shapes. Non-trivial = multi-block source and non-empty result",
+    rule="1-D: every n, every chunking, every window 1..n: sliding_window_view alone and under sum/mean/max/min/std/var/prod/any/all and the nan-reducers; cumsum/cumprod/nancumsum/nancumprod x {sequential, blelloch}; diff n=1..3, prepend/append, gradient; map_overlap with depth 0/1/2 under every boundary kind (none, reflect, periodic, nearest, constants) against NumPy padding semantics, overlap+trim identity, bottleneck move_sum/mean/min/max with every window/min_count through map_overlap (native moving-window rewrite); for n >= 5 every contiguous slice [i:j] and four stepped/reversed slices on top of map_overlap (depth 1/2, every boundary), windowed sum/max, move_sum, cumsum and diff (slice pushdown through the window/scan). 2-D: both axes of small shapes. Non-trivial = multi-block source and non-empty result",
     assumptions=["NumPy sliding_window_view / np.pad semantics / bottleneck on the whole array are the references", "a documented ValueError for an overlap depth larger than the array is a refusal"],
     floors={"accepted": 5000},
 )
